@@ -30,7 +30,11 @@ import (
 )
 
 func TestSim(t *testing.T) {
-	hysim.Main(t, &hysim.Harness{Name: "c03cliudp", Gen: genC03Cli, Exec: execC03Cli})
+	hysim.Main(t,
+		&hysim.Harness{Name: "c03cliudp", Gen: genC03Cli, Exec: execC03Cli},
+		// the same workload in a race-detector build (part c03cliudprace)
+		&hysim.Harness{Name: "c03cliudprace", Gen: genC03Cli, Exec: execC03Cli},
+	)
 }
 
 func genC03Cli(r *hysim.Rand, tier string) *hysim.Script {
@@ -328,10 +332,10 @@ func execC03Cli(x *hysim.Run) {
 		case "limit":
 			w.limit = mut.Clamp(op.Arg(0), 0, 70000)
 		case "canary":
-			synctest.Wait()
+			hysim.Settle()
 			w.canary(canary, mut.Clamp(op.Arg(0), 1, 3000), mut.Clamp(op.Arg(1), 1, 2000), &pid)
 		}
-		synctest.Wait()
+		hysim.Settle()
 		mut.AllocSince(x, a0, "client UDP session manager, op "+op.K, fmt.Sprintf("op args %v", op.A))
 	}
 	if w.parseDrp > 0 {
